@@ -119,12 +119,15 @@ def exit_rules(res, prog, c):
 
 
 def wiring(res, prog, f):
+    def cn(t):
+        """a tree's text with single-definition locals expanded; the parsed command line is called `cli` again"""
+        return show(f.expand(t)).replace('(clap::Parser::parse)', 'cli')
     res.rule('C20.3', 0, floor=4, note='no failure exit is reachable after something was written to the primary output')
     res.rule('C20.4', 0, floor=5, note='the output writers are only handed to the library printers')
     res.rule('C20.5', 0, floor=5, note='each printer call is control-dependent on the option that selects it, with the right flag / writer')
     exits = [b for b, t in f.calls() if f.callee(t) == 'std::process::exit']
     KEEP = ('human', 'json', 'raw_dump', 'cli.brief', 'cli.pretty', 'cyborg')
-    ex = PathExplorer(f, keep=lambda cond: any(w in show(cond) for w in KEEP), track=[])
+    ex = PathExplorer(f, keep=lambda cond: any(w in show(cond) or w in cn(cond) for w in KEEP), track=[])
     ex.tracked = set()
     ex.run()
     if ex.truncated:
@@ -156,7 +159,8 @@ def wiring(res, prog, f):
         # C20.5
         states = ex.states.get(b, set())
         def holds(pred):
-            return all(any(isinstance(v, bool) and pred(show(c), v) for c, v in facts) for facts, env in states) and bool(states)
+            # conditions are compared after expanding single-definition locals: `let brief = cli.brief; if brief ..`
+            return all(any(isinstance(v, bool) and (pred(show(c), v) or pred(cn(c), v)) for c, v in facts) for facts, env in states) and bool(states)
         problems = []
         if p == 'print_brief':
             if not holds(lambda c, v: c == 'human' and v):
@@ -171,8 +175,8 @@ def wiring(res, prog, f):
         elif p == 'print_json':
             if not holds(lambda c, v: c == 'json' and v):
                 problems.append('not guarded by `json`')
-            if show(args[2]) != 'cli.pretty':
-                problems.append('pretty flag is %s, not cli.pretty' % show(args[2]))
+            if cn(args[2]) != 'cli.pretty':
+                problems.append('pretty flag is %s, not cli.pretty' % cn(args[2]))
             w = writer_of(f, args[1]) or show(args[1])
             cy = 'cyborg_output_f' in w
             has_some = all(any(('cyborg_output_f' in show(c)) and (v == 1 or v is True) for c, v in facts) for facts, env in states)
@@ -183,8 +187,8 @@ def wiring(res, prog, f):
         elif p == 'print_minidump_dump':
             if not holds(lambda c, v: c == 'raw_dump' and v):
                 problems.append('not guarded by `raw_dump`')
-            if show(args[2]) != 'cli.brief':
-                problems.append('brief flag is %s, not cli.brief' % show(args[2]))
+            if cn(args[2]) != 'cli.brief':
+                problems.append('brief flag is %s, not cli.brief' % cn(args[2]))
         if p in ('print', 'print_brief', 'print_minidump_dump'):
             w = writer_of(f, args[1]) or show(args[1])
             if 'cyborg' in w or 'output' not in w:
@@ -201,7 +205,6 @@ def wiring(res, prog, f):
     want = {
         'raw_dump': [lambda t, fs: show(t) == 'cli.dump'],
         'json': [lambda t, fs: show(t) == 'cli.json', lambda t, fs: t == ('int', 1) and any('cyborg' in x for x in fs)],
-        'human': [lambda t, fs: t == ('int', 0), lambda t, fs: show(t) in ('(un Not raw_dump)', '(Not raw_dump)'), lambda t, fs: t == ('int', 1) and any('cyborg' in x for x in fs)],
     }
     for name, preds in want.items():
         defs = []
@@ -219,6 +222,64 @@ def wiring(res, prog, f):
             fs = [show(r[1]) if len(r) > 1 else '' for r, g, s in panics.dominating_facts(f, d['bb']) if r[0] == 'true']
             if not any(p(tree, fs) for p in preds):
                 res.violation('C20.5v', 'C20.5v|%s|%s' % (name, show(tree)), f, d['st'].get('line'), 'mode variable `%s` assigned %s (under %s)' % (name, show(tree), fs[:3]))
+    # `human`: besides `human = true` under --cyborg, its value is !json && !raw_dump - as a truth table over
+    # (cli.json, cli.dump), whatever boolean spelling and whatever temporaries the compiler introduced
+    res.rule('C20.5v', 1)
+    exh = PathExplorer(f, keep=lambda cond: any(w in cn(cond) for w in ('cli.json', 'cli.dump', 'cli.cyborg')), track='all')
+    exh.run()
+
+    def ev(t, val):
+        if t[0] == 'int':
+            return bool(t[1])
+        if t[0] == 'un' and t[1] == 'Not':
+            x = ev(t[2], val)
+            return None if x is None else (not x)
+        if t[0] == 'bin' and t[1] in ('BitAnd', 'BitOr'):
+            a, b2 = ev(t[2], val), ev(t[3], val)
+            if t[1] == 'BitAnd':
+                return False if (a is False or b2 is False) else (None if (a is None or b2 is None) else True)
+            return True if (a is True or b2 is True) else (None if (a is None or b2 is None) else False)
+        return val.get(cn(t))
+    hdefs = [(d['bb'], d) for l, ds in f.defs.items() if f.local_name(l) == 'human' for d in ds if d['kind'] == 'assign']
+    if not hdefs:
+        res.error('C20.5v', 'mode variable human not found')
+    table = {}
+    for bb, d in hdefs:
+        for facts, env in exh.states.get(bb, ()):
+            envd = exh.env_at_term(bb, env)
+            val = {}
+            for cnd, v in facts:
+                if isinstance(v, bool):
+                    e = f.expand(cnd)
+                    neg = False
+                    while e[0] == 'un' and e[1] == 'Not':
+                        e, neg = e[2], not neg
+                    val[show(e).replace('(clap::Parser::parse)', 'cli')] = (not v) if neg else v
+            hl = [l for l in f.defs if f.local_name(l) == 'human']
+            hv = envd.get(hl[0]) if hl else None
+            if hv is None:
+                continue
+            cy = [v for k, v in val.items() if 'cli.cyborg' in k]
+            if cy and cy[0] and hv == ('int', 1):
+                continue    # the --cyborg override
+            if any(isinstance(v, bool) and 'cli.cyborg' in cn(cnd) and v for cnd, v in facts):
+                continue
+            # atoms the path did not decide are enumerated: the value must be right for every completion
+            import itertools
+            und = [a for a in ('cli.json', 'cli.dump') if a not in val]
+            for combo in itertools.product((False, True), repeat=len(und)):
+                v2 = dict(val)
+                v2.update(dict(zip(und, combo)))
+                r = ev(hv, v2)
+                table.setdefault((v2['cli.json'], v2['cli.dump']), set()).add(r)
+    bad = []
+    for (j, dmp), rs in table.items():
+        exp = (not j) and (not dmp)
+        for r in rs:
+            if r is None or r != exp:
+                bad.append('json=%s dump=%s -> human=%s' % (j, dmp, r))
+    if bad or not table:
+        res.violation('C20.5v', 'C20.5v|human|table', f, f.line, 'the default of `human` is not !json && !raw_dump: %s' % (bad or 'no definition explored'))
     # rejected combinations exit before the dump is read
     res.rule('C20.5r', 0, floor=2, note='--pretty without json and --brief without human/dump exit before Minidump::read_path')
     if read_path:
@@ -227,10 +288,10 @@ def wiring(res, prog, f):
             if rp in f.can_reach(e):
                 continue  # exits after reading are the dump / processing failures
             facts = [r for r, g, s in panics.dominating_facts(f, e)]
-            names = ' '.join(show(r[1]) for r in facts if len(r) > 1)
+            names = ' '.join(cn(r[1]) for r in facts if len(r) > 1 and isinstance(r[1], tuple))
             if 'cli.pretty' in names or 'cli.brief' in names:
                 res.rule('C20.5r', 1)
-                guards = [g for r, g, s in panics.dominating_facts(f, e) if len(r) > 1 and show(r[1]) in ('cli.pretty', 'cli.brief')]
+                guards = [g for r, g, s in panics.dominating_facts(f, e) if len(r) > 1 and isinstance(r[1], tuple) and cn(r[1]) in ('cli.pretty', 'cli.brief')]
                 if not all(f.dominates(g, rp) for g in guards):
                     res.violation('C20.5r', 'C20.5r|%s' % names[:80], f, f.blocks[e]['t'].get('line'), 'option check does not dominate Minidump::read_path')
     else:
